@@ -48,6 +48,26 @@ class P(vlib.Prop):
         vlib.Harness("queue", "exporter", "./exporterhelper/internal/queuebatch/",
                      {"zz_verif_c02_test.go": "C02/queue_test.go"}, "^TestVerifC02$", "queuebatch", timeout=900),
     ]
-    rule = ""
-    trusted_base = []
-    assumptions = []
+    rule = ("Label sequences (atomic sections of the Go code) executed on the REAL memoryQueue / persistentQueue with "
+            "real goroutines, one label at a time to a stable point, observing the Offer/Read/OnDone result class, "
+            "Size(), cond.waiting and len(cond.ch) after each; the Coq LTS must accept the same labels with the same "
+            "observations. quick: 900 sequential scripts on the non-blocking configurations (both kinds), 500 scripts "
+            "with block_on_overflow / wait_for_result (producers parked in cond.Wait, woken by OnDone/Read, cancelled), "
+            "120 schedules forced by holding the queue mutex while OnDone calls and cancelled waiters line up on it "
+            "(F3 region, under deadlines). capacity 1..8, sizes from {0, 1..cap, cap, cap+1, 2cap, negative}, 10-60 "
+            "operations + drain. thorough: 15x/10x. Direct oracle on the implementation: FIFO/exactly-once hand-off, "
+            "refusal rule from the reported size, size bounds, exact size (in-memory), zero when all finished, no "
+            "producer blocked on an empty queue, cancelled producer returns ctx error, wait-for-result own outcome. "
+            "non-trivial = at least one hand-off or one blocked/awaiting producer.")
+    trusted_base = [
+        "Coq 8.16.1 kernel + vm_compute (coqc); no axioms (Print Assumptions: closed under the global context)",
+        "hand-written LTS coq/C02/Model.v after memory_queue.go, persistent_queue.go (volatile half), cond.go, async_queue.go's consumer loop; tied by the correspondence run",
+        "assumed semantics of sync.Mutex (mutual exclusion, no fairness), 1-slot buffered channel, select, context cancellation, sync.Cond for consumers, sync.Pool handing out unshared objects",
+        "Go harness harness/C02/queue_test.go + go test -overlay; Go toolchain; error-free mock storage (storagetest)",
+    ]
+    assumptions = [
+        "everything between Lock and Unlock of the queue mutex is one atomic step; data guarded by the mutex is only touched inside it",
+        "storage operations of the persistent queue succeed (crashes and storage errors are C01's subject); the queue starts on an empty store",
+        "0 <= capacity; sizes offered to a persistent queue are non-negative (Sizer contract); int64 does not overflow",
+        "liveness is stated as: quiescent states have no producer inside Offer (no fairness-based eventuality is proved)",
+    ]
